@@ -73,6 +73,8 @@ def check(req, e=None):
         a, b = make_mi(A, sig, D, t), make_mi(B, kb, D, t)
         c = a.concat(b, axis=axis)
         sg = b.get_signature() if req["form"] == "tuple" else {k: v.shape[axis] for k, v in b.items()}
+        if req["form"] == "dict+zero":
+            sg.update({k: 0 for k in A if k not in B})
         a2, b2 = c.concat_inverse(sg, axis)
         return blocks_equal(a2, A, what="first part") or blocks_equal(b2, B, what="split-off part"), call
     elif sc == "expand":
